@@ -9,7 +9,12 @@ formula the tile-shape exploration uses, four representations:
    E3 Objective.formula (for the columns that are objectives)
    E4 the SOURCE of the lambdified function the (cached) _lambdify_type_check returned
 z3 decides E1 == E2 == E3 == E4 for EVERY integer assignment of the tile-shape symbols in the box
-1 <= s <= rank bound (no divisibility assumed).  The last leg - the concrete mapping with those tile
+1 <= s <= rank bound (no divisibility assumed); when the exact query is sat it is re-decided with a
+relative tolerance of 1e-9 (binary-float constants rounded in different places, 15-digit printing).
+Cache clause: for up to four formulas per template, sibling expressions over the same symbol list
+(exponent -1 -> -2, coefficient + 1, -1 -> -2, two symbols swapped) are requested from the real cached
+_lambdify_type_check right after the original, and z3 decides that the returned function's source
+computes the REQUESTED sibling (a cache that aliases structurally close keys fails here).  The last leg - the concrete mapping with those tile
 shapes evaluates to the same numbers - is validated on solver-chosen valid assignments by running the
 real run_model on a copy of the job with numeric tile shapes."""
 from __future__ import annotations
@@ -207,7 +212,7 @@ def shard(payload):
         if ji >= len(jobs):
             continue
         job = jobs[ji]
-        label = f"{cfg.get('arch')} M={cfg.get('M')} KN={cfg.get('KN')} {'+'.join(cfg.get('metrics'))}{' imperfect' if cfg.get('imperfect') else ''} template {ji}"
+        label = f"{cfg.get('arch')} M={cfg.get('M')} KN={cfg.get('KN')} {'+'.join(cfg.get('metrics'))}{' imperfect' if cfg.get('imperfect') else ''}{' thr=' + str(cfg['throughputs']) if cfg.get('throughputs') else ''} template {ji}"
         t0 = time.time()
         try:
             cap = capture(job)
@@ -262,8 +267,7 @@ def shard(payload):
         st.vacuity_ok += 1
         for d, a, b, k in pairs:
             sol.push()
-            sol.add(sol_real(a) != sol_real(b))
-            r = z3_check(sol, st, 60000)
+            r = decide_equal(sol, a, b, st)
             count_obligation(st, r, label + d + str(a)[:80])
             if r == "sat":
                 m = sol.model()
@@ -284,6 +288,64 @@ def shard(payload):
                 viol.append(dict(property=PID, cfg=cfg, template=ji, key=k, obligation=d, point=pt, values=vals,
                                  what=f"{label}: {d} fails at {pt}: {vals}"))
             sol.pop()
+        # ---- lambdify cache: no aliasing between structurally close requests ---------------------------------
+        # For up to 4 formulas of this template, sibling expressions over the same symbol list (every
+        # exponent -1 -> -2, every numeric coefficient c -> c + 1, two symbols swapped) are requested from
+        # the real (cached) _lambdify_type_check right after the original; the function it returns must
+        # compute the REQUESTED expression: z3 decides `source of returned function == sibling` over the box.
+        import accelforge.mapper.FFM._make_pmappings.make_pmappings_from_templates.make_tile_shapes as _MT
+        UP = _MT.util
+        done = 0
+        for k, v in e2.items():
+            if done >= 4 or not isinstance(v, sympy.Basic) or not v.free_symbols:
+                continue
+            done += 1
+            sibs = []
+            pw = {a: sympy.Pow(a.args[0], -2) for a in v.atoms(sympy.Pow) if a.args[1] == -1}
+            if pw:
+                sibs.append(("exponent -1 -> -2", v.xreplace(pw)))
+            nums = {a: a + 1 for a in v.atoms(sympy.Number) if a not in (0, 1, -1) and not a.is_Integer or (a.is_Integer and abs(a) > 1)}
+            if nums:
+                sibs.append(("coefficient + 1", v.xreplace(nums)))
+            neg = {a: sympy.Float(-2.0) if a.is_Float else sympy.Integer(-2) for a in v.atoms(sympy.Number) if a == -1}
+            if neg:
+                sibs.append(("coefficient -1 -> -2", v.xreplace(neg)))
+            fs = sorted(v.free_symbols, key=lambda x: x.name)
+            if len(fs) >= 2:
+                sibs.append(("symbols swapped", v.xreplace({fs[0]: fs[1], fs[1]: fs[0]})))
+            UP._lambdify_type_check(list(symbols), v)
+            for what, sib in sibs:
+                if sib == v:
+                    continue
+                f = UP._lambdify_type_check(list(symbols), sib)
+                inner = [c.cell_contents for c in (f.__closure__ or ()) if callable(c.cell_contents)]
+                try:
+                    src = inspect.getsource(inner[0])
+                except (OSError, TypeError):
+                    src = getattr(inner[0], "__doc__", "") or ""
+                try:
+                    a_t, b_t = srctr.real(srctr.fn(src)), tr(canon(sib))
+                except Unsupported:
+                    st.extra["untranslatable"] = st.extra.get("untranslatable", 0) + 1
+                    continue
+                sol.push()
+                sol.add(tr.constraints())
+                r = decide_equal(sol, a_t, b_t, st)
+                d = f"{k}: cached lambdify of sibling ({what}) computes the sibling"
+                count_obligation(st, r, label + d)
+                st.extra["cache_sibling_requests"] = st.extra.get("cache_sibling_requests", 0) + 1
+                if r == "sat":
+                    m = sol.model()
+                    pt = {s.name: int(model_value(m, tr.env[s.name])) for s in symbols}
+                    import numpy as np
+                    got = float(f(*[np.float32(pt[s.name]) for s in symbols]))
+                    want = float(sib.subs({s2: pt[s2.name] for s2 in sib.free_symbols}).evalf())
+                    st.replays += 1
+                    if abs(got - want) <= 1e-4 * max(1.0, abs(want)):
+                        raise HarnessError(f"C07 cache model does not reproduce: {label} {d} at {pt}: {got} vs {want}")
+                    viol.append(dict(property=PID, cfg=cfg, template=ji, key=k, obligation=d, point=pt, values={"returned function": got, "requested expression": want},
+                                     what=f"{label}: {d} fails at {pt}: the function returned for {sib} evaluates to {got}, the expression to {want}"))
+                sol.pop()
         # ---- last leg: concrete evaluation of the mapping at solver-chosen valid assignments -------------
         rel = cap.get("rel")
         df = cap["df"]
@@ -313,6 +375,27 @@ def shard(payload):
     return d
 
 
+def decide_equal(sol, a, b, st):
+    """Inside an open push(): asserts a != b and checks.  The formulas (and the printed source of
+    the lambdified functions, 15 significant digits) carry binary-float constants such as 1792/3
+    rounded in different places: when the exact query is sat, it is re-decided with a relative
+    tolerance of 1e-9, and only a larger gap counts as a disagreement."""
+    sol.push()
+    sol.add(sol_real(a) != sol_real(b))
+    r = z3_check(sol, st, 60000)
+    sol.pop()
+    if r == "unsat":
+        return r
+    ar, br = sol_real(a), sol_real(b)
+    diff = z3.If(ar >= br, ar - br, br - ar)
+    mag = z3.If(ar >= 0, ar, -ar)
+    sol.add(diff > z3.RealVal(Fraction(1, 10**9)) * (1 + mag))
+    r2 = z3_check(sol, st, 60000)
+    if r2 == "unsat" and r == "sat":
+        st.extra["equal_up_to_constant_rounding_1e-9"] = st.extra.get("equal_up_to_constant_rounding_1e-9", 0) + 1
+    return r2
+
+
 def sol_real(t):
     return z3.ToReal(t) if z3.is_int(t) else t
 
@@ -326,7 +409,10 @@ def run(args):
     cfgs = [dict(arch="simple", M=12, KN=8, metrics=("ENERGY", "LATENCY")),
             dict(arch="simple", M=12, KN=8, metrics=("ENERGY_DELAY_PRODUCT",)),
             dict(arch="simple", M=12, KN=6, metrics=("ENERGY", "LATENCY"), imperfect=True),
-            dict(arch="a3", M=12, KN=8, metrics=("ENERGY", "LATENCY"), glb_size=65536)]
+            dict(arch="a3", M=12, KN=8, metrics=("ENERGY", "LATENCY"), glb_size=65536),
+            # integer throughputs that do not divide the action counts, a single latency-bearing component
+            dict(arch="simple", M=8, KN=4, metrics=("ENERGY", "LATENCY"), throughputs={"MAC": 3}),
+            dict(arch="simple", M=8, KN=4, metrics=("ENERGY", "LATENCY"), throughputs={"GlobalBuffer": 3, "MAC": "inf"})]
     if args.tier == "thorough":
         cfgs += [dict(arch="a3", M=12, KN=6, metrics=("ENERGY", "LATENCY"), imperfect=True, glb_size=65536),
                  dict(arch="simple", M=8, KN=6, metrics=("LATENCY",), glb_size=1024),
@@ -353,8 +439,8 @@ def run(args):
         bounds=dict(configurations=[str(c) for c in cfgs], templates_per_configuration=per_cfg, boxes="every tile-shape symbol in [1, rank bound] (integers, no divisibility assumed)",
                     outside="float32 evaluation of the compiled functions (reals here), spatial loops, templates for which the mapper finds no valid tile shape"),
         assumptions=["the lambdified function's source (inspect.getsource / docstring) is what the function computes",
-                     "reals instead of float32"],
-        rule="per template and formula: up to three equivalences (symengine==sympy, objective==sympy, lambdified source==sympy); distinct by (template, formula, pair)",
+                     "reals instead of float32", "formulas that differ by less than 1e-9 relative everywhere in the box are equal (float constants rounded in different places)"],
+        rule="per template and formula: up to three equivalences (symengine==sympy, objective==sympy, lambdified source==sympy) plus, for four formulas per template, one cache-aliasing obligation per sibling expression; distinct by (template, formula, pair)",
         explanation="Four representations of each formula captured from the real make_tile_shapes; pairwise equivalence decided by z3 over the box.",
     )
 
